@@ -279,7 +279,12 @@ pub fn encode_phased(w: &Wire, seed: u64, phases: &[u64]) -> Result<Encoded, Str
             }
             // trailing bytes: the start of a pair announcing more than remains
             let extra = r.clen - prev;
-            for j in 0..extra { body.push(if j < 2 { 127 } else { b'y' }); }
+            if extra == 8 {
+                // an incomplete pair (name length 1, value length 200) that reads like the header of an unknown-type record
+                body.extend([1, 200, 0, 0, 0, 0, 0, 0]);
+            } else {
+                for j in 0..extra { body.push(if j < 2 { 127 } else { b'y' }); }
+            }
             if extra >= 256 { return Err("trailing GetValues bytes would complete a pair".into()); }
             out.extend(&body);
         } else {
